@@ -21,9 +21,9 @@ It is false on the pinned code: `final_counterexample` (PF-09, `ForLoopPulseTemp
 `initial_counterexample_jump` (PF-C07-2), `initial_counterexample_empty_part` (PF-C07-3); a table that ends in a
 `hold` segment *specifies* its last entry as final value (`final_table_hold_specified`), which is not the value the
 voltage ends on.  What is proved (`*_partial`): the statement for the constructor subset `supported` (constant,
-function affine in `t`, sequence, repetition, iteration — every range shape —, mapping with renamed / dropped
-channels), with the initial / final clause under the hypothesis that the path of the closed form runs through none
-of the documented classes (`pathTags … = .ok []`).  Tables, point pulses, parallel channels, atomic multi channel,
+table — all three interpolations, padding to the common duration —, function affine in `t`, sequence, repetition,
+iteration — every range shape —, mapping with renamed / dropped channels), with the initial / final clause under the hypothesis that the path of the closed form runs through none
+of the documented classes (`pathTags … = .ok []`).  Point pulses, parallel channels, atomic multi channel,
 arithmetic and time reversal templates are covered by the correspondence run only.
 The range arithmetic (`range_*`, `final_index_eq_last_iff`) and `pad_holds_final` are proved in full.
 -/
@@ -165,6 +165,31 @@ theorem initial_counterexample_empty_part :
       pathTags .first emptyPartWitness (.dict [("n", 0)]) [] [("A", some "A")] "A" = .ok [Tag.emptyPart] :=
   initial_counterexample_empty_part_eval
 
+/-- PF-C07-2 (open finding): `jumpWitness = TablePT({'A': [(0, 1), (1, 3, 'jump')]})` reports its first entry (1)
+as initial value, the jump segment plays 3 from `t = 0`; the class predicate reports `tableStart` -/
+theorem initial_counterexample_jump :
+    initialOf jumpWitness (.dict []) "A" = .ok 1 ∧
+    ∃ P, denote jumpWitness (.dict []) [] [("A", some "A")] = .ok P ∧
+      plEnd .first (pulseVal P "A") = some 3 ∧
+      pathTags .first jumpWitness (.dict []) [] [("A", some "A")] "A" = .ok [Tag.tableStart] :=
+  initial_counterexample_jump_eval
+
+/-- not a defect, but the reason for the class `tableEnd`: `holdWitness = TablePT({'A': [(0, 1), (1, 3, 'hold')]})`
+*specifies* 3 at its end (`final_values`, and what `pad_to` holds) while the played voltage ends on 1 -/
+theorem final_table_hold_specified :
+    finalOf holdWitness (.dict []) "A" = .ok 3 ∧
+    ∃ P, denote holdWitness (.dict []) [] [("A", some "A")] = .ok P ∧
+      plEnd .last (pulseVal P "A") = some 1 ∧
+      pathTags .last holdWitness (.dict []) [] [("A", some "A")] "A" = .ok [Tag.tableEnd] :=
+  final_table_hold_specified_eval
+
+/-- the heart of the table case, for every list of instantiated entries whose times do not decrease:
+`TableEntry._sequence_integral` (hold: `v0·Δt`, jump: `v1·Δt`, linear: `Δt·(v0+v1)/2` per pair) is the integral of
+the piecewise linear function the entries denote (zero length segments contribute nothing) -/
+theorem table_integral_core (ws : List WEntry) (h : sortedTimes ws = true) :
+    plIntegral (entriesToPL ws) = sequenceIntegral ws :=
+  plIntegral_entriesToPL ws h
+
 /-! ## `pad_to` -/
 
 /-- `pad_holds_final` (all templates): the padded template denotes, channel by channel, the original pulse followed
@@ -204,5 +229,6 @@ theorem pad_holds_last_partial {pt : PT} {σ : Scope} {mm cm} {newDur : Rat} {pa
 
 example : supported loopWitness = true := by decide
 example : supported emptyPartWitness = true := by decide
+example : supported jumpWitness = true := by decide
 
 end QP.Props.C07
